@@ -230,3 +230,168 @@ def empty_strings_mean_not_given(k: int):
 from contracts import c04_wire
 harness(prop="C15", target="geckolib.driver.protocol.hello:GeckoHelloProtocolHandler.handle",
         name="reply_identifier_and_name_decode_intact")(c04_wire.hello_response_roundtrip)
+
+
+# ----------------------------------------------------------------------------- the blocking locator (locator.py)
+import geckolib.locator as sync_locator
+from geckolib.locator import GeckoLocator
+from geckolib.spa_descriptor import GeckoSpaDescriptor
+
+
+class Found:
+    log = []
+
+
+def on_found(descriptor):
+    Found.log.append(descriptor)
+
+
+@harness(prop="C15", target="geckolib.locator:GeckoLocator._on_discovered",
+         bounded="0..2 spas already listed (concrete Python list in the encoding); identifiers, names, requested identifier are symbolic")
+def blocking_reply_listed_once_and_request_recognised(n: int, id1: bytes, id2: bytes, ident: bytes, name: bytes, want_kind: int,
+                                                      want: bytes, addr_kind: int, port: int):
+    """want_kind: 0 no identifier requested, 1 requested as str, 2 requested as bytes (get_spa_from_identifier takes both)"""
+    requires(both(0 <= n, n <= 2, 0 <= want_kind, want_kind <= 2, 0 <= addr_kind, addr_kind <= 2))
+    n = concrete_cases(n, 0, 2)
+    want_kind = concrete_cases(want_kind, 0, 2)
+    addr_kind = concrete_cases(addr_kind, 0, 2)
+    address = [None, "", "10.0.0.9"][addr_kind]
+    requires(id1 != id2)
+    kw = {"on_found": on_found, "static_ip": address}
+    if want_kind == 1:
+        kw["spa_to_find"] = want.decode("latin1")
+    if want_kind == 2:
+        kw["spa_to_find"] = want
+    loc = GeckoLocator("uuid", **kw)
+    ensures("empty-address-is-no-address", (loc._static_ip is None) == (addr_kind != 2))
+    prior = [id1, id2]
+    for i in range(n):
+        loc.spa_identifiers.append(prior[i])
+        loc.spas.append(GeckoSpaDescriptor(loc.client_identifier, prior[i], "spa", ("10.0.0.%d" % i, 10022)))
+    before_ids = list(loc.spa_identifiers)
+    before_spas = list(loc.spas)
+    Found.log = []
+    sender = ("10.0.0.77", port)
+    text = name.decode("latin1")
+    loc._on_discovered(Hello(ident, text), sender)
+    dup = False
+    for i in range(n):
+        dup = either(dup, prior[i] == ident)
+    if dup:
+        ensures("duplicate-reply-changes-nothing",
+                both(loc.spa_identifiers == before_ids, len(loc.spas) == n, len(Found.log) == 0, not loc._has_found_spa))
+    else:
+        requested = both(want_kind != 0, ident == want)
+        if want_kind != 0 and not requested:
+            known_finding("C15:blocking-locator-lists-unrequested-spas", True)
+            ensures("lists-only-the-requested-identifier", len(loc.spas) == n)
+        if want_kind == 0 or requested:
+            ensures("listed-exactly-once", both(len(loc.spas) == n + 1, loc.spa_identifiers == before_ids + [ident]))
+            d = loc.spas[n]
+            ensures("identifier-name-address-intact",
+                    both(d.identifier == ident, d.name == text, d.destination == sender, d.client_identifier == loc.client_identifier))
+            ensures("announced-once-with-the-descriptor", both(len(Found.log) == 1, Found.log[0] is d))
+        ensures("specific-request-is-satisfied-as-soon-as-it-answers",
+                loc._has_found_spa == either(requested, addr_kind == 2))
+    for i in range(n):
+        ensures("earlier-entries-untouched", loc.spas[i] is before_spas[i])
+    for i in range(len(loc.spas)):
+        for j in range(i):
+            ensures("no-identifier-listed-twice", loc.spas[i].identifier != loc.spas[j].identifier)
+    cover("requested-as-bytes-and-answered", both(want_kind == 2, ident == want, not dup))
+    cover("requested-as-str-and-answered", both(want_kind == 1, ident == want, not dup))
+    cover("non-ascii-identifier-requested-as-str", both(want_kind == 1, ident == want, not dup, len(ident) > 1, byte_at(ident, 1) >= 128))
+
+
+class SyncSocket:
+    made = []
+
+    def __init__(self):
+        self.isopen = False
+        self.handlers = []
+        self.closed = 0
+        SyncSocket.made.append(self)
+
+    def open(self):
+        self.isopen = True
+
+    def close(self):
+        self.isopen = False
+        self.closed += 1
+
+    def enable_broadcast(self):
+        pass
+
+    def add_receive_handler(self, h):
+        self.handlers.append(h)
+
+    def queue_send(self, h, dest):
+        pass
+
+    def wait(self, timeout):
+        d = advance_clock(timeout)
+        assume(d * 1000 <= round(timeout * 1000) + J_MS)
+
+
+class ThreadStub:
+    def __init__(self, target=None, daemon=None):
+        self.target = target
+        self.started = 0
+        self.joined = 0
+
+    def start(self):
+        self.started += 1
+
+    def join(self):
+        self.joined += 1
+
+    @property
+    def is_alive(self):
+        return self.started > self.joined
+
+
+@loop_contract("geckolib.locator:GeckoLocator.start_discovery", 0, header="while self.age < GeckoConfig.DISCOVERY_TIMEOUT_IN_SECONDS")
+class blocking_discover_loop:
+    """the engine thread may have run the reply handler any number of times while this thread waited"""
+
+    @staticmethod
+    def havoc(L):
+        set_clock(fresh_time("now"))
+        n = fresh_int("answered", 0, 2)
+        n = concrete_cases(n, 0, 2)
+        L.self.spas = ["spa%d" % i for i in range(n)]
+        L.self._has_found_spa = both(fresh_bool("found"), n > 0)
+
+    @staticmethod
+    def inv(L):
+        age = clock_now() - L.self._started
+        return both(age >= 0, age * 1000 <= timeout_ms() + POLL_MS + J_MS,
+                    implies(L.self._has_found_spa, len(L.self.spas) > 0),
+                    len(SyncSocket.made) == 1, SyncSocket.made[0].isopen)
+
+
+@harness(prop="C15", target="geckolib.locator:GeckoLocator.start_discovery", loops=["blocking_discover_loop"])
+def blocking_discovery_terminates_on_time_and_cleans_up(has_addr: bool, has_filter: bool):
+    sync_locator.GeckoUdpSocket = SyncSocket
+    sync_locator.threading.Thread = ThreadStub
+    SyncSocket.made = []
+    t0 = clock_now()
+    with GeckoLocator("uuid", spa_to_find="SPA1" if has_filter else None, static_ip="10.0.0.9" if has_addr else None) as loc:
+        elapsed = clock_now() - t0
+        ensures("returns-within-the-discovery-timeout-plus-one-poll", elapsed * 1000 <= timeout_ms() + POLL_MS + J_MS)
+        ensures("returns-only-when-found-or-answered-after-initial-wait-or-timed-out",
+                either(loc._has_found_spa,
+                       both(elapsed > GeckoConfig.DISCOVERY_INITIAL_TIMEOUT_IN_SECONDS, len(loc.spas) > 0),
+                       elapsed >= GeckoConfig.DISCOVERY_TIMEOUT_IN_SECONDS))
+        ensures("exactly-one-socket-opened-and-closed",
+                both(len(SyncSocket.made) == 1, not SyncSocket.made[0].isopen, SyncSocket.made[0].closed == 1))
+        ensures("one-hello-handler-registered", len(SyncSocket.made[0].handlers) == 1)
+    ensures("socket-closed-once-and-retry-thread-joined",
+            both(SyncSocket.made[0].closed == 1, loc._retry_thread.started == 1, loc._retry_thread.joined == 1))
+    cover("returns-early-for-a-requested-spa", both(loc._has_found_spa, elapsed < 1))
+    cover("times-out-with-nothing", both(len(loc.spas) == 0, elapsed >= GeckoConfig.DISCOVERY_TIMEOUT_IN_SECONDS))
+
+# a reply is never dropped on arrival, whatever is pending (shared with C07)
+from contracts import c07_dispatch
+harness(prop="C15", target="geckolib.driver.async_udp_protocol:GeckoAsyncUdpProtocol.datagram_received",
+        name="no_reply_is_dropped_on_arrival")(c07_dispatch.every_arriving_datagram_is_queued_at_the_tail)
